@@ -15,6 +15,21 @@ GPR = {"AX", "BX", "CX", "DX", "SI", "DI", "BP", "SP", "R8", "R9", "R10", "R11",
 MOVS = {"MOVQ": 8, "MOVL": 4, "MOVW": 2, "MOVB": 1}
 ALU = {"ADDQ": ("add", 8), "SUBQ": ("sub", 8), "ANDQ": ("and", 8), "ORQ": ("or", 8), "XORQ": ("xor", 8),
        "SHLQ": ("shl", 8), "SHRQ": ("shr", 8), "ORB": ("or", 1), "XORB": ("xor", 1)}
+for _sfx, _w in (("L", 4), ("W", 2), ("B", 1)):
+    for _op, _fn in (("ADD", "add"), ("SUB", "sub"), ("AND", "and"), ("OR", "or"), ("XOR", "xor"), ("SHL", "shl"), ("SHR", "shr")):
+        ALU.setdefault(_op + _sfx, (_fn, _w))
+# two-operand data-flow instructions whose value the machine does not compute (result: unknown, or secret when an
+# operand is): rotates, arithmetic shift, multiply, bit counts/scans
+for _op in ("ROL", "ROR", "SAR", "IMUL", "POPCNT", "LZCNT", "TZCNT", "BSF", "BSR", "ANDN"):
+    for _sfx, _w in (("Q", 8), ("L", 4)):
+        ALU.setdefault(_op + _sfx, ("other", _w))
+ALU1 = {}      # one-operand read-modify-write
+for _op in ("NEG", "NOT", "BSWAP"):
+    for _sfx, _w in (("Q", 8), ("L", 4)):
+        ALU1[_op + _sfx] = ("other", _w)
+CC = ("EQ", "NE", "LT", "LE", "GT", "GE", "CS", "CC", "HI", "LS", "MI", "PL", "OS", "OC")
+CMOV = {"CMOV%s%s" % (sfx, cc): w for sfx, w in (("Q", 8), ("L", 4), ("W", 2)) for cc in CC}
+SETCC = {"SET" + cc for cc in CC}
 JCC = {"JLT": "lt", "JEQ": "eq", "JGT": "gt", "JLE": "le", "JNE": "ne", "JGE": "ge", "JZ": "eq", "JNZ": "ne",
        "JCS": "lt", "JCC": "ge", "JHI": "gt", "JLS": "le", "JLO": "lt", "JHS": "ge"}
 # vector opcodes whose memory source is narrower than the destination register
@@ -104,8 +119,14 @@ def classify(op, ops, where):
         ins.update(cl="vec", fn=op, a=o[0], b=o[1], w=MOVS[op])
     elif op in MOVS:
         ins.update(cl="mov", a=o[0], b=o[1], w=MOVS[op])
-    elif op in ALU:
+    elif op in ALU and len(o) == 2:
         ins.update(cl="alu", fn=ALU[op][0], a=o[0], b=o[1], w=ALU[op][1])
+    elif op in ALU1 and len(o) == 1:
+        ins.update(cl="alu", fn=ALU1[op][0], a=o[0], b=o[0], w=ALU1[op][1])
+    elif op in CMOV and len(o) == 2:          # destination = itself or the source, chosen by the flags
+        ins.update(cl="cmov", a=o[0], b=o[1], w=CMOV[op])
+    elif op in SETCC and len(o) == 1:         # a byte of the flags
+        ins.update(cl="cmov", a=NONE, b=o[0], w=1)
     elif op == "KMOVW":
         ins.update(cl="mov", a=o[0], b=o[1], w=2)
     elif op in ("VZEROUPPER", "VZEROALL"):
